@@ -1595,3 +1595,66 @@ Proof.
   destruct (sm_chain ops s1 s2 ios v0 [] Hall Hrun Hok Hk1 HSI) as (C1&C2&C3).
   rewrite Eh, Er in C2. repeat split; assumption.
 Qed.
+
+(** ** Readable corollaries *)
+Theorem kernel_slots_monotone s o s' res :
+  step s o = Ok (s', res) ->
+  exists new, st_ev s' = st_ev s ++ new /\
+    (Forall ev_ok new -> kinv (views s) ->
+     kinv (views s') /\ forall vid, vle (get_view s vid) (get_view s' vid)).
+Proof.
+  intros Hs. destruct (TR_step _ _ _ _ Hs) as (new&He&H3). exists new. split; [exact He|].
+  intros Hok Hk. destruct (H3 Hok Hk) as (K1&S&_). split; [exact K1|].
+  intros vid. rewrite !get_view_get3. apply S. apply vle_refl.
+Qed.
+
+Theorem sm_stream_pairs ih ivs ops0 s0 ios0 h r s1 c v0 ops s2 ios :
+  1 <= ih -> ih < two64 ->
+  forallb no_restart ops0 = true -> mrun (ms_init ih ivs) ops0 = Ok (s0, ios0) ->
+  mstep s0 (MEnter h r) = Ok (s1, c, IOEnterView v0) ->
+  forallb epoch_op ops = true -> mrun s1 ops = Ok (s2, ios) ->
+  Forall ev_ok (st_ev (ms_k s2)) ->
+  (forall v, In v (flat_map sm_vrv ios) -> v_ver v0 < v_ver v /\ view_le v0 v) /\
+  (forall l1 a l2 b l3, flat_map sm_vrv ios = l1 ++ a :: l2 ++ b :: l3 -> v_ver a < v_ver b /\ view_le a b).
+Proof.
+  intros H1 H2 Hall0 Hrun0 Hent Hall Hrun Hok.
+  destruct (sm_stream_grows ih ivs ops0 s0 ios0 h r s1 c v0 ops s2 ios H1 H2 Hall0 Hrun0 Hent Hall Hrun Hok) as (_&_&C&_).
+  assert (T : forall a b c0, vqs a b -> vqs b c0 -> vqs a c0).
+  { intros a b c0 Hab Hbc. eapply vq_vqs_trans; [apply vqs_vq; exact Hab|exact Hbc]. }
+  destruct (chain_from_pairs vqs T _ _ C) as [A B]. split; [intros v Hv; apply A, Hv|exact B].
+Qed.
+
+Lemma jumps_ok_pairs l : forall JD, jumps_ok JD l ->
+  (forall jd b, In jd JD -> In b l -> samepos jd b -> vq jd b) /\
+  (forall l1 a l2 b l3, l = l1 ++ a :: l2 ++ b :: l3 -> samepos a b -> vq a b).
+Proof.
+  induction l as [|j l IH]; intros JD; cbn [jumps_ok].
+  - intros _. split; [intros jd b _ []|]. intros l1 a l2 b l3 E. destruct l1; discriminate.
+  - intros [A B]. destruct (IH _ B) as [I1 I2]. rewrite Forall_forall in A. split.
+    + intros jd b Hjd [E|Hb]; [subst b; apply A; exact Hjd|apply I1; [right; exact Hjd|exact Hb]].
+    + intros l1 a l2 b l3 E. destruct l1 as [|z l1]; cbn [app] in E; inversion E; subst.
+      * apply I1; [left; reflexivity|apply in_or_app; right; left; reflexivity].
+      * eapply I2. reflexivity.
+Qed.
+
+(** boolean form of the no-wrap-around hypothesis, for examples and monitors *)
+Definition ev_okb (e : mev) : bool :=
+  match e with
+  | EvMark vid m => negb (v_ver m =? 0) && negb (v_h m =? 0) && (negb (slot vid =? ViewIDNextRound) || negb (v_r m =? 0))
+  | EvJump m => negb (v_r m =? 0)
+  | _ => true
+  end.
+
+Lemma ev_okb_ok e : ev_okb e = true -> ev_ok e.
+Proof.
+  destruct e as [vid m|m|m|h]; cbn [ev_okb ev_ok]; try (intros; exact I).
+  - intros H. apply andb_true_iff in H as [H H3]. apply andb_true_iff in H as [H1 H2].
+    apply negb_true_iff in H1, H2. apply N.eqb_neq in H1, H2. split; [exact H1|]. split; [exact H2|].
+    intros Hs. apply orb_true_iff in H3 as [H3|H3].
+    + apply negb_true_iff, N.eqb_neq in H3. contradiction.
+    + apply negb_true_iff, N.eqb_neq in H3. exact H3.
+  - intros H. apply negb_true_iff, N.eqb_neq in H. exact H.
+Qed.
+
+Lemma forallb_ev_okb l : forallb ev_okb l = true -> Forall ev_ok l.
+Proof. intros H. apply Forall_forall. intros e He. apply ev_okb_ok. rewrite forallb_forall in H. apply H, He. Qed.
